@@ -241,6 +241,19 @@ def run(ctx: Ctx) -> None:
     dp, dmn, dmx = [x.arg for x in f.args.args][1:4]
     d = Defs(f)
     check_block_nest(ctx, "C15.BLOCKS", FZP, "FixedZoomPyramid.disparity_range", start="offset")
+    # the two range maps hold sub-pixel bounds: they must be floating point (an integer map truncates toward zero)
+    from ..rules_dtype import F32, F64, dtype_of
+
+    fd = Defs(f)
+    for name in ("disp_min_range", "disp_max_range"):
+        al = fd.all_defs(name)
+        if not al:
+            raise AnalysisError(f"disparity_range: allocation of {name} not found")
+        k = dtype_of(al[0][1], fd, al[0][0])
+        okk = k in (F32, F64) or (k.startswith("like:") and "disparity_map" in k)
+        if k == "?":
+            raise AnalysisError(f"disparity_range: dtype of `{name} = {src(al[0][1])[:80]}` cannot be classified")
+        ctx.ob("C15.RANGE", FZP, al[0][0], f"{name} allocated as {k}: {src(al[0][1])[:80]}", okk, expected="np.full_like(disparity map, ...) or an explicit float dtype", detail="the map receives nanmin/nanmax of sub-pixel coarse disparities -/+ marge: stored in an integer array they are truncated toward zero before up-scaling, so the finer level searches a shifted interval")
     od = d.all_defs("offset")
     ctx.ob("C15.RANGE", FZP, od[0][0] if od else f, f"offset = {canon(od[0][1]) if od else '?'}", bool(od) and canon(od[0][1]) == f"int(-1/2 + 1/2*{dp}.attrs['window_size'])", expected="int((window_size - 1) / 2)")
     sw = [c for c in calls_in(f) if (dotted(c.func) or "") == "sliding_window"]
@@ -321,6 +334,8 @@ SPEC = PropSpec(
 )
 
 MUTANTS = [
+    {"id": "range-maps-integer-typed", "file": FZP, "old": '        disp_min_range = np.full_like(disp["disparity_map"].data, int(np.nanmin(disp_min)))\n', "new": '        disp_min_range = np.full((ncol, nrow), int(np.nanmin(disp_min)))\n'},
+    {"id": "eq-range-maps-explicit-float32", "kind": "equiv", "file": FZP, "old": '        disp_min_range = np.full_like(disp["disparity_map"].data, int(np.nanmin(disp_min)))\n', "new": '        disp_min_range = np.full((ncol, nrow), int(np.nanmin(disp_min)), dtype=np.float32)\n'},
     {"id": "multiscale-looked-up-by-bare-name", "file": "pandora/check_configuration.py", "old": '    multiscale_steps = [step for step in cfg["pipeline"] if step.split(".")[0] == "multiscale"]\n    if multiscale_steps:\n', "new": '    multiscale_steps = ["multiscale"] if "multiscale" in cfg["pipeline"] else []\n    if multiscale_steps:\n'},
     {"id": "multiscale-selected-at-top-level", "file": "pandora/check_configuration.py", "old": '    multiscale_steps = [step for step in cfg["pipeline"] if step.split(".")[0] == "multiscale"]\n', "new": '    multiscale_steps = [step for step in cfg if step.split(".")[0] == "multiscale"]\n'},
     {"id": "drop-reverse", "file": IMG, "old": "return pyramid_left[::-1], pyramid_right[::-1]", "new": "return pyramid_left, pyramid_right"},
